@@ -429,7 +429,80 @@ def run_r4(ctx, yastn, rng, pid, key, count):
                      f"({name} operand, permutation {pr}) differs from the trace over the original legs: {msg}", case=case, concrete=True)
 
 
-RELATIONS = {"R1": run_r1, "R2": run_r2, "R3": run_r3, "R4": run_r4}
+# --------------------------------------------------------------------------------------------------------------------
+# R5: direct-sum (block) legs inside hard fusions, with different sector content in the two operands
+# --------------------------------------------------------------------------------------------------------------------
+def run_r5(ctx, yastn, rng, pid, key, count):
+    """Y = block of tensors along one leg (history 's'); Yp = Y restricted to a subset of the charges of that leg (by contracting the
+    OTHER leg with a tensor holding fewer sectors).  X (x) Y and X (x) Yp are hard-fused over (X-leg, summed leg) and contracted:
+    fused contraction == contraction over the original legs."""
+    symname = rng.choice([s for s in tgen.SYM_NAMES if s != "dense"])
+    cfg = tgen.make_cfg(symname, rng.choice(tgen.POLICIES), "hard")
+    lq = tgen.rand_leg(rng, cfg, symname, s=-1, max_sectors=3, max_dim=2)
+    nsum = rng.randint(2, 3)
+    parts = {}
+    for k in range(nsum):
+        lv = tgen.rand_leg(rng, cfg, symname, s=1, max_sectors=2, max_dim=2)
+        t = tgen.rand_tensor(rng, cfg, symname, [lv, lq], n=cfg.sym.zero(), drop=0.0, allow_empty=True)
+        if t.size > 0:
+            parts[(k,)] = t
+    if len(parts) < 2:
+        return
+    try:
+        Y = yastn.block(parts, common_legs=(1,))
+    except yastn.YastnError:
+        count("views:R5:block-rejected"); return
+    # restrict the second leg to a subset of its sectors: the summed leg loses the sectors that only connected to the dropped ones
+    lqs = Y.get_legs(1)
+    keep = [t for t in lqs.t if rng.random() < 0.6] or [rng.choice(lqs.t)]
+    lsub = yastn.Leg(cfg, s=-lqs.s, t=keep, D=[dict(zip(lqs.t, lqs.D))[t] for t in keep])
+    P = tgen.int_fill(rng, yastn.eye(cfg, legs=[lsub, lsub.conj()], isdiag=False), False, lo=1, hi=3)
+    Yp = yastn.tensordot(Y, P, axes=(1, 0))
+    lp = tgen.rand_leg(rng, cfg, symname, s=1, max_sectors=2, max_dim=2)
+    X = tgen.rand_tensor(rng, cfg, symname, [lp, lp.conj()], n=cfg.sym.zero(), drop=0.0, allow_empty=False)
+    if X.size == 0 or Yp.size == 0:
+        return
+    Bf = yastn.tensordot(X, Y, axes=((), ()))     # legs: p, p*, summed, q
+    Bp = yastn.tensordot(X, Yp, axes=((), ()))
+    lost = len(Yp.get_legs(0).t) < len(Y.get_legs(0).t)
+    count(f"views:R5:summed-leg-lost-a-sector:{lost}")
+    case = {"relation": "R5", "sym": symname, "parts": {str(k): tgen.to_model(v) for k, v in parts.items()}, "keep": [list(t) for t in keep],
+            "X": tgen.to_model(X), "P": tgen.to_model(P)}
+    ctx.case({"relation": "R5", "sym": symname, "nsum": len(parts), "lost": lost}, nontrivial=len(Y.struct.t) >= 2)
+    try:
+        ref = yastn.tensordot(Bp, Bf, axes=((0, 2), (0, 2)), conj=(0, 1))
+        refadd = None
+    except Exception as e:  # noqa: BLE001
+        ctx.fail("oracle", f"{key}:views:R5:reference", f"contraction over the ORIGINAL legs (one of them a direct sum) raised {type(e).__name__}: {e}", case=case, concrete=True)
+        return
+    for order in (((0, 2), 1, 3), ((2, 0), 1, 3)):
+        try:
+            Ff, Fp = Bf.fuse_legs(axes=order, mode="hard"), Bp.fuse_legs(axes=order, mode="hard")
+            got = yastn.tensordot(Fp, Ff, axes=(0, 0), conj=(0, 1))
+        except Exception as e:  # noqa: BLE001
+            ctx.fail("oracle", f"{key}:views:R5:raises", f"tensordot over hard-fused legs {order[0]} containing a direct-sum (block) leg "
+                     f"{'that lost a sector in one operand ' if lost else ''}raised {type(e).__name__}: {e}; the contraction over the original legs works",
+                     case=case, concrete=True)
+            continue
+        msg = eq_union(yastn, got, ref)
+        if msg:
+            ctx.fail("oracle", f"{key}:views:R5", f"tensordot over hard-fused legs {order[0]} containing a direct-sum (block) leg differs from the "
+                     f"contraction over the original legs: {msg}", case=case, concrete=True)
+        # the same two fused tensors in vdot / add (union instead of intersection)
+        try:
+            v1 = yastn.vdot(Fp, Ff); v0 = yastn.vdot(Bp, Bf)
+            if abs(complex(v1) - complex(v0)) > 1e-9 * max(1.0, abs(complex(v0))):
+                ctx.fail("oracle", f"{key}:views:R5:vdot", f"vdot over fused legs containing a direct-sum leg: {v1} vs {v0} over the original legs", case=case, concrete=True)
+            s1 = (Fp + Ff).unfuse_legs(axes=0); s0 = (Bp + Bf).transpose(axes=(order[0][0], order[0][1], 1, 3))
+            msg = eq_union(yastn, s1, s0)
+            if msg:
+                ctx.fail("oracle", f"{key}:views:R5:add", f"addition of tensors fused over a direct-sum leg of different content: {msg}", case=case, concrete=True)
+        except Exception as e:  # noqa: BLE001
+            ctx.fail("oracle", f"{key}:views:R5:raises", f"vdot/add over hard-fused legs containing a direct-sum (block) leg raised {type(e).__name__}: {e}",
+                     case=case, concrete=True)
+
+
+RELATIONS = {"R1": run_r1, "R2": run_r2, "R3": run_r3, "R4": run_r4, "R5": run_r5}
 
 
 def run(ctx, ncases, budget, which=("R1", "R1", "R1", "R2", "R3", "R4"), key=None):
